@@ -14,7 +14,7 @@ import copy
 
 from hypothesis import strategies as st
 
-from vf import gen, provider
+from vf import gen, provider, refsem
 from vf.props import common
 from vf.runner import Part, Violation
 
@@ -88,9 +88,14 @@ class Watch(object):
 
 def run(scn, stats):
     w = Watch(items_tasks=[n for n, t in scn["ir"]["tasks"].items() if t.get("with")])
-    defn, r = common.run(scn, stats, observers=[w])
+    fo = refsem.FlowObserver(scn["ir"])
+    dw = common.DupWatch()
+    stop = lambda rr: dw.dup  # noqa  (R1: the engine offers a join twice; see C15)
+    defn, r = common.run(scn, stats, observers=[fo, dw, w], stop=stop)
+    if dw.dup:
+        stats.excluded["R1"] += 1
     # a rerun at full rest, then continue (rerun must append)
-    if scn.get("rerun") and r.engine_exception is None and r.at_rest() and r.d.status() == "failed":
+    if scn.get("rerun") and r.engine_exception is None and not dw.dup and r.at_rest() and r.d.status() == "failed":
         try:
             r.step({"op": "rerun", "tasks": None})
             r.outcomes = {}
@@ -125,6 +130,6 @@ def strat_directed(tier):
 
 
 PARTS = [
-    Part("walk", run, strategy, {"quick": 1800, "thorough": 50000}, rule=RULE),
-    Part("fork-join", run, strat_directed, {"quick": 1600, "thorough": 40000}, rule="directed fork-join definitions whose join retries / iterates, with a rerun placed right after the failure"),
+    Part("walk", run, strategy, {"quick": 1400, "thorough": 50000}, rule=RULE),
+    Part("fork-join", run, strat_directed, {"quick": 2400, "thorough": 50000}, rule="directed fork-join definitions whose join retries / iterates, with a rerun placed right after the failure"),
 ]
